@@ -109,8 +109,8 @@ namespace
         void interrupt() { line.clear(); cursor = 0; curhist = 0; }
     };
 
-    enum Key { K_PRINT, K_BS, K_LEFT, K_RIGHT, K_UP, K_DOWN, K_DEL, K_ENTER, K_CTRLC, K_UNK2, K_UNK3, K_NOISE, K_N };
-    const char *K_NAME[] = {"char", "BS", "Left", "Right", "Up", "Down", "Del", "Enter", "^C", "ESC-x", "ESC-[-x", "noise"};
+    enum Key { K_PRINT, K_BS, K_LEFT, K_RIGHT, K_UP, K_DOWN, K_DEL, K_ENTER, K_CTRLC, K_UNK2, K_UNK3, K_NOISE, K_FILL, K_N };
+    const char *K_NAME[] = {"char", "BS", "Left", "Right", "Up", "Down", "Del", "Enter", "^C", "ESC-x", "ESC-[-x", "noise", "fill"};
 
     struct Sink : TermSink
     {
@@ -151,6 +151,8 @@ namespace
             Plan p;
             int cap = (int)r.range(2, 24), H = (int)r.range(1, 5);
             if (r.chance(1, 4)) cap = (int)r.range(2, 5);
+            bool big = r.chance(1, 25); // a wide line: columns beyond 255
+            if (big) cap = (int)r.range(258, 340);
             // prompt variant and echo switch (echo off: only the executed lines and the bounds can be checked)
             p.cfg = {cap, H, r.chance(2, 3) ? 0 : (int64_t)r.range(1, 3), r.chance(1, 8) ? 0 : 1};
             int n = (int)r.range(4, tier == THOROUGH ? 200 : 120);
@@ -164,6 +166,7 @@ namespace
                 else if (style == 1) k = r.pick<int64_t>({K_LEFT, K_LEFT, K_RIGHT, K_BS, K_DEL, K_PRINT, K_ENTER, K_UP});
                 else if (style == 2) k = r.pick<int64_t>({K_ENTER, K_UP, K_UP, K_DOWN, K_PRINT, K_LEFT, K_CTRLC});
                 else k = (int64_t)r.below(K_NOISE);
+                if (big && r.chance(1, 6)) k = K_FILL;
                 // a: printable selector / enter variant / unknown byte ; b: noise byte
                 p.ops.push_back({k, (int64_t)r.below(95), (int64_t)r.below(256)});
             }
@@ -171,7 +174,7 @@ namespace
         }
         std::string describe(const Plan &p) override
         {
-            std::string s = "cap=" + std::to_string(mod(p.c(0) - 2, 23) + 2) + " hist=" + std::to_string(mod(p.c(1) - 1, 5) + 1) + " keys:";
+            std::string s = "cap=" + std::to_string(mod(p.c(0) - 2, 400) + 2) + " hist=" + std::to_string(mod(p.c(1) - 1, 5) + 1) + " keys:";
             for (auto &o : p.ops)
             {
                 int k = (int)mod(arg(o, 0), K_N);
@@ -186,7 +189,7 @@ namespace
         Result execute(const Plan &p, Trace &tr) override
         {
             Result res;
-            size_t cap = (size_t)mod(p.c(0) - 2, 23) + 2, H = (size_t)mod(p.c(1) - 1, 5) + 1;
+            size_t cap = (size_t)mod(p.c(0) - 2, 400) + 2, H = (size_t)mod(p.c(1) - 1, 5) + 1;
             std::unique_ptr<Term> term(xx ? make_term_xx() : make_term_c());
             Sink sink;
             sink.cap = cap;
@@ -241,6 +244,23 @@ namespace
             {
                 int k = (int)mod(arg(o, 0), K_N);
                 if (k == K_NOISE && !noise) k = K_PRINT;
+                if (k == K_FILL)
+                {
+                    // a burst of printables (paste): fills a wide line quickly
+                    int cnt = 40 + (int)mod(arg(o, 2), 256);
+                    for (int q = 0; q < cnt; q++)
+                    {
+                        char c = (char)('a' + (q + (int)arg(o, 1)) % 26);
+                        feed((unsigned char)c);
+                        ref.printable(c);
+                    }
+                    if (ref.cursor >= 256) probe("cursor_beyond_column_255");
+                    last_nl_fired = false;
+                    check_bounds("fill");
+                    if (!noise) check_screen("fill");
+                    keys++;
+                    continue;
+                }
                 const char *kn = K_NAME[k];
                 keys++;
                 switch (k)
